@@ -1,16 +1,267 @@
-import PprofVerif.Model.Settings
-import PprofVerif.Model.SettingsFS
-import PprofVerif.Model.SettingsRMW
+import PprofVerif.Lemmas.SettingsURL
+import PprofVerif.Lemmas.SettingsJSON
+import PprofVerif.Lemmas.SettingsFS
+import PprofVerif.Lemmas.SettingsRMW
 import PprofVerif.Gen.ConfigFields
+/-!
+# C19 — Saved view configurations are durable and faithfully restored
+
+Property theorems only (helper lemmas: `Lemmas/Settings{Decimal,URL,JSON,FS,RMW}.lean`).  They are
+about the executable models `Model/Settings.lean` (options ↔ URL ↔ JSON, read-modify-write),
+`Model/SettingsFS.lean` (file system with crashes) and `Model/SettingsRMW.lean` (interleavings).
+The option theorems hold for EVERY field table satisfying a decidable side condition; the
+`table_*` theorems re-decide that condition, in the kernel, for the table regenerated from
+`internal/driver/config.go` on every check (`Gen/ConfigFields.lean`), and the `*_pprof` theorems
+are the instances for that table.  The tie to the running code is the correspondence /
+trace-refinement / fault-enumeration harness (`harness/c19*.go`).
+
+External parameters (trusted base): `FloatOps.parse` (strconv.ParseFloat∘fmt.Sprint),
+`JsonCodec` (encoding/json, `dec (enc x) = some x`), net/url query encoding, POSIX `rename`.
+-/
 namespace PV.Props.C19
-open PV PV.Settings
+open PV PV.Settings PV.Gen.ConfigFields
 
-theorem table_url_ok : urlTableOK PV.Gen.ConfigFields.fields = true := by decide
+/-! ## regenerated table facts -/
 
-theorem table_json_ok : jsonTableOK PV.Gen.ConfigFields.fields = true := by decide
+/-- every URL parameter names one field only; defaults have the field's Go type; `choices` only on
+string fields; no field uses the parameter `config`. -/
+theorem table_url_ok : urlTableOK fields = true := by decide
 
+/-- saved fields have pairwise different, non-empty JSON names, none of them `name`. -/
+theorem table_json_ok : jsonTableOK fields = true := by decide
+
+/-- `readSettings` decodes into a zero `config` and `resetTransient` restores exactly the fields
+that have no JSON name. -/
 theorem table_transient_ok :
-    transientOK PV.Gen.ConfigFields.fields PV.Gen.ConfigFields.transient
-      PV.Gen.ConfigFields.decodeFromZero PV.Gen.ConfigFields.loadResetsTransient = true := by decide
+    transientOK fields transient decodeFromZero loadResetsTransient = true := by decide
+
+/-! ## (b) configuration → URL → configuration -/
+
+/-- **URL round trip, any table, ALL configurations, any initial URL.**  Converting `cfg` to a URL
+(on top of any query `u` that carries no non-saved option) and applying that URL to the default
+configuration yields `cfg`, where a string option holding "" counts as unset and takes its default
+(`normURL`), and options that URLs do not carry take their default.  Per kind: bool via the
+`t`/`f` shortening and `stringToBool`, int via `Atoi ∘ Sprint = id` on int64 (proved), float via
+the parameter `fo` on canonical texts, string/choice verbatim. -/
+theorem url_roundtrip (fo : FloatOps) (fs : List FieldSpec) (hT : urlTableOK fs = true) (cfg : Config)
+    (hw : WF fo fs cfg) (u : Query) (hu : ∀ f ∈ fs, inURL f = false → qget u f.urlparam = []) :
+    applyURL fo fs (defaults fs) (makeURL fs cfg u).1 = some (normURL fs cfg) :=
+  applyURL_makeURL fo fs hT cfg hw u hu
+
+/-- … for pprof's own table. -/
+theorem url_roundtrip_pprof (fo : FloatOps) (cfg : Config) (hw : WF fo fields cfg) (u : Query)
+    (hu : ∀ f ∈ fields, inURL f = false → qget u f.urlparam = []) :
+    applyURL fo fields (defaults fields) (makeURL fields cfg u).1 = some (normURL fields cfg) :=
+  url_roundtrip fo fields table_url_ok cfg hw u hu
+
+/-- **The full statement** — every SAVED option survives configuration → URL → configuration — holds
+for every table in which each saved field has a URL parameter. (On the pinned tree `tagroot` and
+`tagleaf` are saved without one: finding `C19/url-roundtrip/saved-option-not-in-url/*`, shown on the
+real code by the harness; `fixes/C19-tagroot-tagleaf-urlparam.patch` gives them parameters.) -/
+theorem url_roundtrip_all_saved (fo : FloatOps) (fs : List FieldSpec) (hT : urlTableOK fs = true)
+    (hA : allSavedInURL fs = true) (cfg : Config) (hw : WF fo fs cfg) (u : Query)
+    (hu : ∀ f ∈ fs, inURL f = false → qget u f.urlparam = []) :
+    applyURL fo fs (defaults fs) (makeURL fs cfg u).1 = some (normSaved fs cfg) := by
+  rw [← normURL_eq_normSaved fs cfg hA]
+  exact applyURL_makeURL fo fs hT cfg hw u hu
+
+/-- witness: a saved field without URL parameter does not survive (the model exhibits the finding). -/
+theorem saved_option_without_urlparam_is_lost :
+    let fs : List FieldSpec := [{ goName := "TagRoot", name := b!"tagroot", saved := true, omitempty := true, urlparam := [], kind := .string, choices := [], default := .s [] }]
+    applyURL ⟨fun t => some t⟩ fs (defaults fs) (makeURL fs [.s b!"x"] []).1 = some [.s []] ∧
+      normSaved fs [.s b!"x"] = [.s b!"x"] := by decide
+
+/-- `strconv.Atoi (fmt.Sprint n) = n` for every int64 `n` (the int-kind step of the round trip). -/
+theorem atoi_sprint_roundtrip (n : Int) (h : inI64 n = true) : atoi (showInt n) = some n :=
+  atoi_showInt n h
+
+-- non-vacuity: a non-default configuration over a table with all five kinds, and an initial URL with
+-- stale values for the same parameters
+example :
+    let fs : List FieldSpec := [
+      { goName := "Trim", name := b!"trim", saved := true, omitempty := true, urlparam := b!"trim", kind := .bool, choices := [], default := .b true },
+      { goName := "NodeCount", name := b!"nodecount", saved := true, omitempty := true, urlparam := b!"n", kind := .int, choices := [], default := .i (-1) },
+      { goName := "Unit", name := b!"unit", saved := true, omitempty := true, urlparam := b!"unit", kind := .string, choices := [], default := .s b!"minimum" },
+      { goName := "Sort", name := b!"sort", saved := true, omitempty := true, urlparam := b!"sort", kind := .choice, choices := [b!"cum", b!"flat"], default := .s b!"flat" }]
+    let cfg : Config := [.b false, .i (-9223372036854775808), .s [], .s b!"cum"]
+    urlTableOK fs = true ∧
+    (makeURL fs cfg [(b!"n", b!"5"), (b!"unit", b!"ms"), (b!"other", b!"1")]).1 =
+      [(b!"sort", b!"cum"), (b!"n", b!"-9223372036854775808"), (b!"trim", b!"f"), (b!"other", b!"1")] ∧
+    normURL fs cfg = [.b false, .i (-9223372036854775808), .s b!"minimum", .s b!"cum"] := by decide
+
+/-! ## (a) configuration → settings file → configuration -/
+
+/-- **JSON round trip of the saved fields, any table, ALL typed configurations.**  Marshalling with
+`omitempty` and unmarshalling into a zero `config` followed by `resetTransient` returns every
+saved field intact (`restore`: saved fields from `cfg`, the others as currently configured).
+Needs: distinct JSON names (`jsonTableOK`). -/
+theorem json_roundtrip_saved_fields (fs : List FieldSpec) (hT : jsonTableOK fs = true) (cur cfg : Config)
+    (ht : Typed fs cfg) (hl : cur.length = fs.length) :
+    fromObj fs cur (toObj fs cfg) = some (restore fs cur cfg) :=
+  fromObj_toObj fs hT cur cfg ht hl
+
+/-- … for pprof's own table. -/
+theorem json_roundtrip_saved_fields_pprof (cur cfg : Config) (ht : Typed fields cfg)
+    (hl : cur.length = fields.length) :
+    fromObj fields cur (toObj fields cfg) = some (restore fields cur cfg) :=
+  json_roundtrip_saved_fields fields table_json_ok cur cfg ht hl
+
+/-- the whole file: reading back what `writeSettings` wrote gives every configuration, in order,
+with its saved fields intact (`j` = encoding/json, assumed `dec ∘ enc = id`). -/
+theorem settings_file_roundtrip (j : JsonCodec) (hj : j.RoundTrips) (fs : List FieldSpec)
+    (hT : jsonTableOK fs = true) (cur : Config) (hl : cur.length = fs.length) (s : Settings)
+    (hs : ∀ p ∈ s, Typed fs p.2) :
+    readSettings j fs cur (some (settingsBytes j fs s)) =
+      some (s.map (fun p => (p.1, restore fs cur p.2))) := by
+  simp [readSettings, settingsBytes, hj (encS fs s), decS_encS fs hT cur hl s hs]
+
+example : Typed fields (defaults fields) ∧ (defaults fields).length = fields.length := by decide
+
+/-! ## (c) save/delete of one name leaves the others alone -/
+
+/-- **Frame, ALL settings lists.**  Whatever a successful request about name `r.name` does, the
+entries of every other name — their contents AND their relative order — are unchanged; in
+particular the list of entries named `b ≠ r.name` is the same before and after. -/
+theorem edit_frame (fo : FloatOps) (fs : List FieldSpec) (cur : Config) (r : Req) (s s' : Settings)
+    (h : r.edit fo fs cur s = some s') :
+    s'.filter (fun p => decide (p.1 ≠ r.name)) = s.filter (fun p => decide (p.1 ≠ r.name)) ∧
+    ∀ b, b ≠ r.name → s'.filter (fun p => decide (p.1 = b)) = s.filter (fun p => decide (p.1 = b)) := by
+  have h1 := edit_others fo fs cur r s s' h
+  refine ⟨h1, fun b hb => ?_⟩
+  rw [filter_name_of_ne r.name b hb s', filter_name_of_ne r.name b hb s, h1]
+
+/-- a save makes the saved configuration the one a lookup of that name finds; a successful delete
+removes exactly one entry, and it is one of that name. -/
+theorem edit_effect (a : Str) (cfg : Config) (s : Settings) :
+    (setEntry a cfg s).find? (fun p => decide (p.1 = a)) = some (a, cfg) ∧
+    ∀ s', removeEntry a s = some s' → s'.length + 1 = s.length ∧
+      (s'.filter (fun p => decide (p.1 = a))).length + 1 = (s.filter (fun p => decide (p.1 = a))).length :=
+  ⟨setEntry_find a cfg s, fun s' h => removeEntry_length a s s' h⟩
+
+/-- **Frame through the file.**  On any document `writeSettings` produced, a successful request about
+`r.name` leaves the stored JSON objects of every other name byte-for-byte (object-for-object) as
+they were; a failing request leaves the whole document as it is. -/
+theorem edit_frame_file (fo : FloatOps) (fs : List FieldSpec) (hT : jsonTableOK fs = true) (cur : Config)
+    (hl : cur.length = fs.length) (s : Settings) (hs : ∀ p ∈ s, Typed fs p.2) (r : Req) :
+    ((handleObj fo fs cur (some (encS fs s)) r).2 = false →
+        (handleObj fo fs cur (some (encS fs s)) r).1 = some (encS fs s)) ∧
+    ((handleObj fo fs cur (some (encS fs s)) r).2 = true → ∀ b, b ≠ r.name →
+      ∃ d', (handleObj fo fs cur (some (encS fs s)) r).1 = some d' ∧
+        d'.filter (fun p => decide (p.1 = b)) = (encS fs s).filter (fun p => decide (p.1 = b))) :=
+  ⟨handleObj_fail fo fs cur _ r, fun h b hb => handleObj_frame fo fs hT cur hl s hs r b hb h⟩
+
+example : (Req.edit ⟨fun t => some t⟩ fields (defaults fields) (.delete b!"a")
+    [(b!"x", defaults fields), (b!"a", defaults fields), (b!"y", defaults fields)]).isSome = true := by decide
+
+/-! ## (d) crash atomicity of the write protocol -/
+
+open PV.FS in
+/-- **temp file + fsync + rename is old-or-new at EVERY crash point.**  From any quiescent file
+system `s0` (everything synced) in which the temp name is free, for every way of splitting the new
+document into `write` calls: every operation succeeds; after every prefix of the operations —
+and inside every `write`, at every byte position — every crash image (any directory state since
+the start, any subset of the unsynced data of any inode) shows at `f` the complete previous content
+(`content s0 f`, possibly "no file") or the complete new content; and at the end `f` holds the
+new content. -/
+theorem atomic_protocol_old_or_new (s0 : FS) (hq : Quiet s0) (fd : Nat) (tmp f : Str) (hne : tmp ≠ f)
+    (hfree : aget s0.dir tmp = none) (chunks : List Bytes) :
+    (∃ sts, trace s0 (atomicWriteOps fd tmp f chunks) = some sts ∧
+      ∀ st ∈ sts, ∀ c ∈ crashContents st f, c = content s0 f ∨ c = some chunks.flatten) ∧
+    ∃ sN, run s0 (atomicWriteOps fd tmp f chunks) = some sN ∧ content sN f = some chunks.flatten := by
+  obtain ⟨sts, ht, hall, sN, hr, hq'⟩ := (atomic_allStates s0 fd tmp f chunks hq hne hfree).trace _ _
+  exact ⟨⟨sts, ht, hall⟩, sN, hr, hq'⟩
+
+open PV.FS in
+/-- the error path (a `write` fails — ENOSPC, EFBIG, EIO — after any number of chunks; the temp file
+is closed and removed): `f` shows the old content at every crash point and at the end. -/
+theorem atomic_protocol_write_error_keeps_old (s0 : FS) (hq : Quiet s0) (fd : Nat) (tmp f : Str)
+    (hne : tmp ≠ f) (hfree : aget s0.dir tmp = none) (done : List Bytes) (new : Bytes) :
+    (∃ sts, trace s0 (atomicWriteFailOps fd tmp done) = some sts ∧
+      ∀ st ∈ sts, ∀ c ∈ crashContents st f, c = content s0 f ∨ c = some new) ∧
+    ∃ sN, run s0 (atomicWriteFailOps fd tmp done) = some sN ∧ content sN f = content s0 f := by
+  obtain ⟨sts, ht, hall, sN, hr, hq'⟩ := (fail_allStates s0 fd tmp f done new hq hne hfree).trace _ _
+  exact ⟨⟨sts, ht, hall⟩, sN, hr, hq'⟩
+
+open PV.FS in
+/-- **`os.WriteFile` is not atomic** (the pinned `writeSettings`): whatever non-empty old and new
+contents, after the FIRST system call (`open … O_TRUNC`) the settings file is empty — that is what
+a reader sees, what a killed process leaves behind, and it is neither old nor new. -/
+theorem inplace_protocol_not_atomic (s0 : FS) (hq : Quiet s0) (fd : Nat) (f : Str) (old new : Bytes)
+    (ho : content s0 f = some old) (h1 : old ≠ []) (h2 : new ≠ []) (chunks : List Bytes) :
+    ∃ s1, run s0 ((inplaceWriteOps fd f chunks).take 1) = some s1 ∧ content s1 f = some [] ∧
+      ¬ (∀ c ∈ crashContents s1 f, c = some old ∨ c = some new) :=
+  inplace_truncates s0 hq fd f old new ho h1 h2 chunks
+
+open PV.FS in
+/-- soundness of the checker the syscall-trace refinement uses (`fs.accepts` in the driver): the
+verdict "atomic" on an operation sequence means exactly the statement of
+`atomic_protocol_old_or_new` for that sequence. -/
+theorem trace_checker_sound (f : Str) (old : Option Bytes) (new : Bytes) (s : FS) (ops : List Op)
+    (h : accepts f old new false s ops = none) :
+    (∃ sts, trace s ops = some sts ∧ ∀ st ∈ sts, ∀ c ∈ crashContents st f, c = old ∨ c = some new) ∧
+      ∃ sN, run s ops = some sN ∧ content sN f = some new :=
+  accepts_none f old new s ops h
+
+open PV.FS in
+-- non-vacuity and the mutants of Appendix B on concrete bytes: the protocol is accepted; without
+-- fsync, or renaming before the data is written, or writing in place, it is not
+example :
+    let f := b!"settings.json"; let t := b!"settings.json.tmp1"; let s0 := ofFiles [(f, b!"old")]
+    accepts f (some b!"old") b!"newer" false s0 (atomicWriteOps 3 t f [b!"ne", b!"wer"]) = none ∧
+    (accepts f (some b!"old") b!"newer" false s0
+      [.open 3 t true false true, .write 3 b!"newer", .close 3, .rename t f]).isSome = true ∧
+    (accepts f (some b!"old") b!"newer" false s0
+      [.open 3 t true false true, .rename t f, .write 3 b!"newer", .fsync 3, .close 3]).isSome = true ∧
+    (accepts f (some b!"old") b!"newer" false s0 (inplaceWriteOps 3 f [b!"newer"])).isSome = true := by
+  decide
+
+/-! ## (e) concurrent requests -/
+
+open PV.RMW in
+/-- **ALL interleavings of locked read-modify-write cycles are serialisable**: for any number `n` of
+threads, any edits, any schedule under which all threads finish, the final file is what running
+the edits one after another in the order of their writes (`s.log`, a permutation of all threads)
+produces. -/
+theorem locked_rmw_serialisable {σ : Type} (n : Nat) (edit : Nat → σ → σ) (f0 : σ) (sched : List Nat)
+    (s : Sys σ) (hr : run true n edit (init f0) sched = some s) (hc : Complete n s) :
+    s.file = serial edit s.log f0 ∧ s.log.Perm (List.range n) :=
+  locked_serialisable n edit f0 sched s hr hc
+
+open PV.RMW in
+/-- … for the settings handlers: `n` concurrent save/delete requests under the mutex leave the file
+as some serial order of `handleBytes` (= `editSettings`) would. -/
+theorem concurrent_requests_serialisable (j : JsonCodec) (fo : FloatOps) (fs : List FieldSpec) (cur : Config)
+    (reqs : Nat → Req) (n : Nat) (file0 : Option Str) (sched : List Nat) (s : Sys (Option Str))
+    (hr : run true n (fun i f => (handleBytes j fo fs cur f (reqs i)).1) (init file0) sched = some s)
+    (hc : Complete n s) :
+    ∃ order : List Nat, order.Perm (List.range n) ∧
+      s.file = order.foldl (fun f i => (handleBytes j fo fs cur f (reqs i)).1) file0 :=
+  ⟨s.log, (locked_serialisable n _ file0 sched s hr hc).2, (locked_serialisable n _ file0 sched s hr hc).1⟩
+
+/-- the two edits of the lost-update witness: save `a`, save `b`. -/
+def witnessEdit (i : Nat) (s : Settings) : Settings :=
+  if i = 0 then setEntry b!"a" [.b true] s else setEntry b!"b" [.b false] s
+
+open PV.RMW in
+/-- **Without the lock an update is lost** (witness schedule): both threads read the empty file, then
+both write; the result holds only `b` — neither serial order's result. -/
+theorem unlocked_rmw_lost_update :
+    ((run false 2 witnessEdit (init []) [0, 0, 1, 1, 0, 0, 1, 1]).map (·.file)) = some [(b!"b", [.b false])] ∧
+    ((run false 2 witnessEdit (init []) [0, 0, 1, 1, 0, 0, 1, 1]).map
+        (fun s => isDone (s.pcs 0) && isDone (s.pcs 1))) = some true ∧
+    serial witnessEdit [0, 1] [] = [(b!"a", [.b true]), (b!"b", [.b false])] ∧
+    serial witnessEdit [1, 0] [] = [(b!"b", [.b false]), (b!"a", [.b true])] := by
+  decide
+
+open PV.FS in
+/-- **Unlocked in-place writes destroy the file** (witness, the shape the probe of DESIGN §C19
+observed): two overlapping `os.WriteFile` calls leave a complete short document followed by the tail
+of the longer one. -/
+theorem unlocked_inplace_corrupts :
+    (run (ofFiles [(b!"f", b!"{old}")])
+      [.open 3 b!"f" true true false, .open 4 b!"f" true true false,
+       .write 3 b!"{long document}", .write 4 b!"{short}", .close 3, .close 4]).bind (content · b!"f")
+      = some b!"{short}ocument}" := by
+  decide
 
 end PV.Props.C19
